@@ -89,7 +89,8 @@ def gen_value(ch, depth=0):
         return bool(ch.pick('uf.bool', 2))
     if kind == 3:
         return [gen_value(ch, 1) for _ in range(1 + ch.pick('uf.list', 3))]
-    return {'k%d' % i: gen_value(ch, 1) for i in range(1 + ch.pick('uf.dict', 3))}
+    # keys of an inline table: plain, or with blanks/tabs inside (the writer then has to quote them)
+    return {('k%d', 'k %d', 'key\t%d x')[ch.pick('uf.key', 3)] % i: gen_value(ch, 1) for i in range(1 + ch.pick('uf.dict', 3))}
 
 
 def abstract(ops):
